@@ -50,14 +50,14 @@ class Ctx:
             raise Infra("harness build failed:\n" + p.stdout + p.stderr)
         return out
 
-    def run_hx(self, args, timeout=3600, binary=None, env=None):
+    def run_hx(self, args, timeout=3600, binary=None, env=None, ok_codes=(0,)):
         e = dict(GOENV)
         if env:
             e.update(env)
         p = subprocess.run([binary or self.hx] + args, cwd=self.work, env=e, capture_output=True, text=True, timeout=timeout)
         if p.returncode == 3:
             return p  # hang record
-        if p.returncode != 0:
+        if p.returncode not in ok_codes:
             raise Infra("hx %s failed (%d):\n%s%s" % (" ".join(args[:3]), p.returncode, p.stdout[-2000:], p.stderr[-4000:]))
         return p
 
